@@ -315,6 +315,16 @@ func RunC13(env *Env, rep *Report) {
 			}
 		}
 	}
+	// "redefining a constant is rejected": the templates of C20 (different and
+	// identical values, also through another constant)
+	for _, t := range c20Templates() {
+		if strings.HasPrefix(t.name, "constant-redefined") {
+			cs := c20Case(t)
+			cs.Name = "c13/" + t.name
+			cs.Shape = c13Shape{Site: t.name, Defs: "redefinition"}
+			cases = append(cases, cs)
+		}
+	}
 	// two uses per file
 	sites := c13Sites()
 	pairs := 0
@@ -343,7 +353,7 @@ func RunC13(env *Env, rep *Report) {
 	rep.Explanation = "Bounded symbolic verification, not a proof. For every documented use site (command argument - also inside nested parentheses and of an autovar command -, flag/var/defeated operand, comparison value with and without value(), switch operand, case value, map-script table condition and value, mart item) and every non-site (command name, movement and moves() step, label, text content, map-script type, script name), a program with one identifier U at that position is compiled by symbolic execution under four definition sets (one single-token constant, one multi-token constant, a chain of three constants defined from each other, a multi-token constant with an alias defined as just that constant), with all names and values symbolic; in the same symbolic state the programs with each constant's fully expanded value written in place of U, and the program without definitions, are compiled. Whether U is one of the constants is a solver-decided fork. Asserted: at a site the output equals that of the program with the matching constant's expanded value (or of the definition-free program if U matches none); at a non-site it equals the definition-free program's output whatever U is; acceptance/rejection agree. Files with two uses (two top-level statements at two sites; every ordered pair of sites in the thorough tier, each site with its successor in the quick tier) are checked the same way against the program with both values written out, with the definitions placed before both statements or between them - in the latter placement the first use is not a later use and must stay as written."
 	rep.Bounds = map[string]interface{}{"sites": siteNames, "definition_sets": []string{"one single-token", "one multi-token", "chain of 3 (defined from each other)", "a multi-token constant and an alias of it"}, "cases": len(cases), "uses_per_program": "1 and 2 (two statements at two sites; definitions before both or between them)", "two_use_cases": pairs}
 	rep.Outside = []string{"more than two uses per program", "more than 3 definitions", "constants inside poryswitch cases"}
-	rep.Assumptions = []string{"constant names are pairwise distinct identifiers (redefinition is C20)", "names are generic identifiers (Int-coded)"}
+	rep.Assumptions = []string{"constant names are pairwise distinct identifiers except in the redefinition templates (shared with C20)", "names are generic identifiers (Int-coded)"}
 	rep.Functions = []string{"parseConstant", "tryReplaceWithConstant", "parseCommandStatement", "parseLeafBooleanExpression", "parseConditionVarOperator", "parseSwitchStatement", "parseMapscriptsStatement", "parseMartStatement"}
 	rep.Match = func(k *KnownFinding, f *Finding) bool {
 		if kindOf(k) != "value_of_multi_token_constant_not_parenthesised" {
